@@ -307,7 +307,7 @@ Section MontRec.
   Proof.
     intros Hb Hc. unfold canon in *. unfold rm_sub. rewrite (sub_mod_cases p b c Hb Hc).
     destruct (Z.ltb_spec b c); destruct (Z.leb_spec c b); try lia.
-    - rewrite (modB_small B (p - c)) by lia. apply modB_small. lia.
+    - rewrite (modB_neg B (b - c)) by lia. rewrite (modB_big B) by lia. ring.
     - apply modB_small. lia.
   Qed.
   Lemma rm_subin_raw b c : can b -> can c -> rm_subin k p b c = (b - c) mod p.
@@ -767,7 +767,7 @@ Section MRProofs.
   Qed.
   Lemma mr_sub_ok a b : can a -> can b -> can (mr_sub k M a b) /\ V (mr_sub k M a b) = (V a - V b) mod p.
   Proof.
-    intros Ha Hb. unfold mr_sub. cbn [g_p mr_mk]. rewrite (rm_sub_raw k p Hp a b Ha Hb).
+    intros Ha Hb. change (mr_sub k M a b) with (rm_sub k (g_p M) a b). cbn [g_p mr_mk]. rewrite (rm_sub_raw k p Hp a b Ha Hb).
     split; [apply (mod_can k p Hp)|]. rewrite (mr_V_fm ((a - b) mod p)) by apply (mod_can k p Hp).
     rewrite (mr_V_fm a Ha), (mr_V_fm b Hb). apply fm_sub.
   Qed.
